@@ -93,6 +93,8 @@ TApiRet == /\ IsEv("ApiRet")
            /\ IF Ev.ok THEN CApiOk ELSE CApiFail
            /\ Consume
 
+TPageFail == IsEv("PageFail") /\ CPageFail /\ Consume
+
 TEvSet == /\ IsEv("EvSet")
           /\ \/ (cpc = "Rel" /\ ci <= Len(batch) /\ batch[ci] = Ev.i /\ sync[Ev.i] /\ Ev.o = "ok" /\ CRel)
              \/ (cpc = "FailBatch" /\ ci <= Len(batch) /\ batch[ci] = Ev.i /\ sync[Ev.i] /\ Ev.o = "err" /\ CFailBatch)
@@ -118,7 +120,7 @@ SilentC ==
 
 TraceDone == l = Len(Tr) + 1 /\ UNCHANGED tvars
 
-TraceNext == TPCheck \/ TPut \/ TPRecheck \/ TPRet \/ TStop \/ TMainGet \/ TOvGet \/ TOvPut \/ TApiCall \/ TApiRet
+TraceNext == TPCheck \/ TPut \/ TPRecheck \/ TPRet \/ TStop \/ TMainGet \/ TOvGet \/ TOvPut \/ TApiCall \/ TApiRet \/ TPageFail
              \/ TEvSet \/ TFlagSet \/ TCExit \/ SilentC \/ TraceDone
 
 TraceSpec == TraceInit /\ [][TraceNext]_tvars
